@@ -38,8 +38,42 @@ fn main() {
                 }
             }
         }
+        Some("faultsweep") => {
+            // mux faultsweep <workloads> <stride>: for each workload run a fault-free baseline, then
+            // one run per (wire, item index, fault kind); stride > 1 samples the cut points.
+            let nw: u64 = args[2].parse().unwrap();
+            let stride: u64 = args.get(3).and_then(|s| s.parse().ok()).unwrap_or(1);
+            let mut rng = verif_harness::prng::Rng::from_env();
+            let first = rng.below(6);
+            for wi in 0..nw {
+                let w = (first + wi) % 6;
+                let seed = rng.next_u64();
+                let base = gens::fault_workload(&mut verif_harness::prng::Rng::new(seed), w, None);
+                let trace = run_script(&base);
+                let count = |side: &str| trace.iter().filter(|l| l.starts_with(&format!("tx {side} "))).count() as u64;
+                let (fa, fb) = (count("A"), count("B"));
+                writeln!(out, "trace fault-w{w}-base").unwrap();
+                for l in &trace {
+                    writeln!(out, "{l}").unwrap();
+                }
+                let offset = rng.below(stride);
+                for (wire, frames) in [("A", fa), ("B", fb)] {
+                    let mut i = offset;
+                    while i <= frames {
+                        for kind in ["sink", "stream", "eof", "stall", "stallboth"] {
+                            let script = gens::fault_workload(&mut verif_harness::prng::Rng::new(seed), w, Some((wire, i, kind)));
+                            writeln!(out, "trace fault-w{w}-{wire}-{i}-{kind}").unwrap();
+                            for l in run_script(&script) {
+                                writeln!(out, "{l}").unwrap();
+                            }
+                        }
+                        i += stride;
+                    }
+                }
+            }
+        }
         _ => {
-            eprintln!("usage: mux run <file>... | mux gen <generator> <count>");
+            eprintln!("usage: mux run <file>... | mux gen <generator> <count> | mux faultsweep <workloads> <stride>");
             std::process::exit(2);
         }
     }
